@@ -103,6 +103,16 @@ theorem post_separated (F : Filt) (l : List Feat) (hs : ∀ s ∈ sep, 0 < s) :
   unfold close at this
   simpa [withEp] using this
 
+/-- the same for any two distinct rows, in either order -/
+theorem post_separated_symm (F : Filt) (l : List Feat) (hs : ∀ s ∈ sep, 0 < s) :
+    ∀ o ∈ locatePost N sep scale F l, ∀ o' ∈ locatePost N sep scale F l,
+      o.feat.tag ≠ o'.feat.tag → 1 ≤ dist2 sep o.feat.pos o'.feat.pos := by
+  intro o ho o' ho' hne
+  rcases Nat.lt_or_gt_of_ne hne with h | h
+  · exact post_separated N sep scale F l hs o ho o' ho' h
+  · rw [dist2_comm]
+    exact post_separated N sep scale F l hs o' ho' o ho h
+
 /-! ## topn -/
 
 /-- Clause "with topn = n at most n features are returned" (n ≥ 1; see `topnSel` for n = 0). -/
